@@ -67,6 +67,41 @@ def history(rng, w, n, multi=False):
     return out
 
 
+def position_reads(rng, n):
+    """int bindings whose control skeleton (switch with break / fall-through / return clauses and a default anywhere, if/else, both nested) has a
+    read of a DIFFERENT property in every position -- discriminant, each clause, after the switch (reached only through the backward `break`
+    edges), after an if whose arms both return: every one of them must be connected, wherever the builder lays its block out"""
+    reads = [("member", ("ident", o), pn) for o in ("a", "b", "sub") for pn in ("i", "m1", "m2")]
+    out = []
+    for k in range(n):
+        rs = list(reads)
+        rng.shuffle(rs)
+        nxt = iter(rs)
+        ncl = rng.choice([1, 2, 2, 3])
+        ends = [rng.choice(["break", "break", "fall", "return"]) for _ in range(ncl)] if k % 3 else ["break"] * ncl
+        cases = []
+        for j in range(ncl):
+            body = [("expr", ("assign", ("ident", "r"), ("binary", "^", ("ident", "r"), next(nxt))))]      # ^: defined for all int values
+            if ends[j] == "break":
+                body.append(("break", False))
+            elif ends[j] == "return":
+                body.append(("return", ("ident", "r")))
+            cases.append((("int", j + 1), body))
+        default = None
+        if rng.random() < 0.6:
+            dbody = [("expr", ("assign", ("ident", "r"), next(nxt)))] + ([("break", False)] if (k % 3 == 0 or rng.random() < 0.6) else [])
+            default = (rng.randrange(0, ncl + 1), dbody)
+        sw = ("switch", next(nxt), cases, default)
+        stmts = [("decl", "let", [("r", None, ("int", 0))])]
+        if k % 4 == 3:
+            stmts.append(("if", ("binary", ">", next(nxt), ("int", 0)), ("block", [sw]), ("block", [("expr", ("assign", ("ident", "r"), ("int", 5)))])))
+        else:
+            stmts.append(sw)
+        stmts.append(("return", ("binary", "^", ("ident", "r"), next(nxt))))
+        out.append(("binding_block", stmts))
+    return out
+
+
 def run(ctx):
     ctx.proof_leg(TARGETS, PINS, k_targets=exe.K_TARGETS + ["model/Signals.vo", "proofs/PropdepProofs.vo", "model/TirCase.vo", "gen/GenE0.vo"])
     vh = ctx.need_harness()
@@ -81,6 +116,9 @@ def run(ctx):
         p, t = g.binding()
         progs.append((p, t, prog.qml_program(p)))
         ctx.dist("binding-%s-%s" % (p[0].split("_")[1], t))
+    for p in position_reads(rng, 60 if ctx.tier == "thorough" else 24):
+        progs.append((p, "int", prog.qml_program(p)))
+        ctx.dist("binding-position-reads")
     singles = exe.accepted_singles(vh, [("binding", sgen.PROP[t], src) for p, t, src in progs])
     acc = []
     for (p, t, src), r in zip(progs, singles):
